@@ -11,6 +11,7 @@ cp /repo/go.sum harness/go.sum 2>/dev/null || true
 # T-gen tables the Lean tie modules import (rewritten again by every check)
 ./harness/bin/vh tgen-errors "$PWD/lean/JSight/Generated/ErrorTable.lean" >/dev/null
 ./harness/bin/vh tgen-cmap "$PWD/lean/JSight/Generated/CMapUses.lean" >/dev/null
+./harness/bin/vh tgen-compat "$PWD/lean/JSight/Generated/CompatTable.lean" >/dev/null
 (cd lean && lake build JSight Driver jsight-model 2>&1 | grep -E "error|✖|Build completed" || true)
 test -x lean/.lake/build/bin/jsight-model
 echo setup-ok
